@@ -119,7 +119,8 @@ def drive(tasks, link=None, max_steps=200000, on_stall="eof", order=None,
                 link.pump()
             continue
         except BaseException as e:     # noqa - recorded, judged by caller
-            if isinstance(e, (KeyboardInterrupt, SystemExit, MemoryError)):
+            if isinstance(e, (KeyboardInterrupt, SystemExit, MemoryError)) \
+                    or type(e).__name__ == "CaseHang":
                 raise
             outs[name].state = "exc"
             outs[name].exc = e
